@@ -341,7 +341,7 @@ Lemma ensure_unfold o part nextp rest0 c :
           match into_con n with
           | Some ((KDoc _ _ _) as ch) =>
               let (e, ch') := ensure o rest ch in (e, con_put o c key (node_of_con ch'))
-          | _ => (Some EInvalid, c)
+          | _ => (None, c)
           end
       end
   end.
